@@ -64,6 +64,8 @@ pub enum Comp {
     Time4(String),
     /// flag-like literal (e.g. the `N` of 37H): may be exposed as a boolean
     Flag(String),
+    /// numbered line `n/text`: the model may expose `text` or `n/text`
+    Numbered(usize, String),
 }
 
 #[derive(Clone, Debug)]
@@ -111,6 +113,8 @@ pub enum G {
     PermOnly(Box<G>),
     /// two digits 01..99 (days of field 23)
     Days2,
+    /// x-run of 1..max chars whose first char is a letter (one component)
+    AlphaStartRun { max: usize },
     /// `5n/5n` with index <= total (28D)
     IndexTotal,
 }
@@ -240,7 +244,10 @@ pub fn gen_time4(src: &mut Src) -> String {
 /// amount text valid for `decimals` minor units, at most `max_len` chars, comma included
 pub fn gen_amount(src: &mut Src, max_len: usize, decimals: usize) -> String {
     let nd = src.range(0, decimals);
+    // mostly at most 15 significant digits (what an f64 holds exactly); 1 in 16 longer
+    let long = src.chance(1, 16);
     let max_int = max_len.saturating_sub(1 + nd).clamp(1, 14);
+    let max_int = if long { max_int } else { max_int.min(15usize.saturating_sub(nd).max(1)) };
     let nint = match src.below(6) {
         0 => 1,
         1 => max_int,
@@ -313,6 +320,7 @@ impl G {
             G::RefNoDslash { .. } => "Ref".into(),
             G::PermOnly(_) => return None,
             G::Days2 => "Days2".into(),
+            G::AlphaStartRun { .. } => "AlphaStartRun".into(),
             G::IndexTotal => "IndexTotal".into(),
         })
     }
@@ -384,6 +392,13 @@ impl G {
                 v[i].gen_into(src, out, ccy, slash_safe);
             }
             G::PermOnly(_) => {}
+            G::AlphaStartRun { max } => {
+                let mut l = gen_line(src, Cls::X, 1, *max, true);
+                let c = src.pick_char("ABCDEFGHIJKLMNOPQRSTUVWXYZ");
+                l.replace_range(0..1, &c.to_string());
+                out.text.push_str(&l);
+                out.comps.push(Comp::Text(l));
+            }
             G::Days2 => {
                 let d = match src.below(3) {
                     0 => 1,
@@ -430,7 +445,7 @@ impl G {
                     }
                     let l = gen_line(src, Cls::X, 1, *width, true);
                     out.text.push_str(&format!("{}/{}", i + 1, l));
-                    out.comps.push(Comp::Text(l));
+                    out.comps.push(Comp::Numbered(i + 1, l));
                 }
             }
             G::Date6 => {
@@ -745,6 +760,9 @@ impl G {
             }
             G::PermOnly(g) => {
                 if mode == Mode::Permissive { g.m(cs, pos, mode, st, k) } else { false }
+            }
+            G::AlphaStartRun { max } => {
+                if pos < cs.len() && ok_char(Cls::A, cs[pos], mode) { G::Run { cls: Cls::X, min: 1, max: *max }.m(cs, pos, mode, st, k) } else { false }
             }
             G::Days2 => {
                 if pos + 2 > cs.len() || !cs[pos].is_ascii_digit() || !cs[pos + 1].is_ascii_digit() {
@@ -1093,7 +1111,7 @@ fn acct_then(rest: G) -> G {
     seq(vec![opt(seq(vec![G::SlashRun { min: 1, max: 34 }, G::Nl])), rest])
 }
 fn balance() -> G {
-    seq(vec![code(&["C", "D"]), G::Date6, G::Ccy, G::Amount { max_len: 15, with_ccy: true, kind: AmtKind::Any }])
+    seq(vec![code(&["C", "D"]), G::Date6, G::Ccy, G::Amount { max_len: 15, with_ccy: true, kind: AmtKind::Positive }])
 }
 fn party_b() -> G {
     // [/1!a][/34x] + [35x] : at least one of the two
@@ -1117,7 +1135,7 @@ pub fn field_specs() -> Vec<FieldSpec> {
     let am = |ty, tag, doc, g| FieldSpec { ty, tag, doc, g, amount: true, date: false };
     let dt = |ty, tag, doc, g| FieldSpec { ty, tag, doc, g, amount: false, date: true };
     let amdt = |ty, tag, doc, g| FieldSpec { ty, tag, doc, g, amount: true, date: true };
-    let amt15 = || G::Amount { max_len: 15, with_ccy: true, kind: AmtKind::Any };
+    let amt15 = || G::Amount { max_len: 15, with_ccy: true, kind: AmtKind::Positive };
     vec![
         dt("Field11R", "11R", "3!n6!n[4!n][6!n]", seq(vec![fix(N, 3), G::Date6, opt(seq(vec![fix(N, 4), opt(fix(N, 6))]))])),
         dt("Field11S", "11S", "3!n6!n[4!n][6!n]", seq(vec![fix(N, 3), G::Date6, opt(seq(vec![fix(N, 4), opt(fix(N, 6))]))])),
@@ -1135,12 +1153,12 @@ pub fn field_specs() -> Vec<FieldSpec> {
         fs("Field21R", "21R", "16x", G::NoSlashEdges(Box::new(upto(X, 16)))),
         fs("Field23", "23", "3!a[2!n]11x", alt(vec![
             seq(vec![code(&["NOT"]), G::Days2, upto(X, 11)]),
-            seq(vec![code(&["BAS", "CAL", "COM", "CUR", "DEP", "PRI"]), fix(A, 1), G::Run { cls: X, min: 0, max: 10 }]),
+            seq(vec![code(&["BAS", "CAL", "COM", "CUR", "DEP", "PRI"]), G::AlphaStartRun { max: 11 }]),
             G::PermOnly(Box::new(seq(vec![fix(A, 3), opt(fix(N, 2)), upto(X, 11)]))),
         ])),
         fs("Field23B", "23B", "4!c", code_or(&["CRED", "CRTS", "SPAY", "SPRI", "SSTD"], fix(C, 4))),
         fs("Field23E", "23E", "4!c[/35x]", seq(vec![fix(A, 4), opt(seq(vec![lit("/"), upto(X, 35)]))])),
-        fs("Field25NoOption", "25", "35x", upto(X, 35)),
+        fs("Field25NoOption", "25", "35x", G::NoLeadSlash35()),
         fs("Field25A", "25A", "/34x", G::SlashRun { min: 1, max: 34 }),
         fs("Field25P", "25P", "35x + 4!a2!a2!c[3!c]", seq(vec![upto(X, 35), G::Nl, G::Bic])),
         fs("Field26T", "26T", "3!c", fix(C, 3)),
